@@ -893,7 +893,7 @@ class Interp(object):
             raise PyRaise(make_exc('AttributeError', name))
         if hasattr(obj, 'sym_getattr'):
             return obj.sym_getattr(self, name)
-        r = self.lib.getattr(self, obj, name)
+        r = self.lib.lib_getattr(self, obj, name)
         if r is not NotImplemented:
             return r
         if isinstance(obj, (Sym, Lane, Arr2, Opaque)):
@@ -1065,6 +1065,9 @@ class Interp(object):
                 (isinstance(b, GenList) and isinstance(a, (Lane, Sym))):
             a = a.lane if isinstance(a, GenList) else a
             b = b.lane if isinstance(b, GenList) else b
+        if isinstance(op, ast.Mult) and isinstance(a, list) and len(a) == 1 and isinstance(b, Sym) and \
+                isinstance(a[0], (Sym, int, float)):
+            return GenList(Lane(values.to_term(a[0]), b))          # [c] * n with symbolic n
         if isinstance(a, (Sym, Lane, Arr2)) or isinstance(b, (Sym, Lane, Arr2)):
             if type(op) not in self._BIN:
                 raise Unsupported('operator %s on symbolic values' % type(op).__name__)
